@@ -104,8 +104,7 @@ func (c *RuleCtx) CallersWithin(label string, target *ssa.Function, allowed ...s
 	n := 0
 	for _, e := range c.P.Callers(target) {
 		n++
-		enc := enclosingNamed(e.From)
-		c.Check(allow[e.From] || allow[enc], ks.key(label+":call("+c.P.FuncName(target)+")@"+c.P.FuncName(e.From)), c.Pos(e.Site),
+		c.Check(c.P.OwnedBy(e.From, allow), ks.key(label+":call("+c.P.FuncName(target)+")@"+c.P.FuncName(e.From)), c.Pos(e.Site),
 			fmt.Sprintf("%s is used only from the allowed set {%s}", c.P.FuncName(target), strings.Join(allowed, ",")),
 			fmt.Sprintf("%s used from %s, not in {%s}", c.P.FuncName(target), c.P.FuncName(e.From), strings.Join(allowed, ",")))
 	}
@@ -120,7 +119,7 @@ func (c *RuleCtx) WritersWithin(label string, f *types.Var, allowed ...string) i
 	for _, a := range c.P.Writes(f) {
 		n++
 		enc := enclosingNamed(a.Fn)
-		c.Check(allow[a.Fn] || allow[enc], ks.key(label+":write("+f.Name()+")@"+c.P.FuncName(a.Fn)), c.Pos(a.Instr),
+		c.Check(c.P.OwnedBy(a.Fn, allow), ks.key(label+":write("+f.Name()+")@"+c.P.FuncName(a.Fn)), c.Pos(a.Instr),
 			fmt.Sprintf("%s of %s inside allowed writer %s", a.Kind, f.Name(), c.P.FuncName(enc)),
 			fmt.Sprintf("%s of %s in %s, not in {%s}", a.Kind, f.Name(), c.P.FuncName(a.Fn), strings.Join(allowed, ",")))
 	}
@@ -135,7 +134,7 @@ func (c *RuleCtx) ReadersWithin(label string, f *types.Var, allowed ...string) i
 	for _, a := range c.P.Reads(f) {
 		n++
 		enc := enclosingNamed(a.Fn)
-		c.Check(allow[a.Fn] || allow[enc], ks.key(label+":read("+f.Name()+")@"+c.P.FuncName(a.Fn)), c.Pos(a.Instr),
+		c.Check(c.P.OwnedBy(a.Fn, allow), ks.key(label+":read("+f.Name()+")@"+c.P.FuncName(a.Fn)), c.Pos(a.Instr),
 			fmt.Sprintf("read of %s inside allowed reader %s", f.Name(), c.P.FuncName(enc)),
 			fmt.Sprintf("read of %s in %s, not in {%s}", f.Name(), c.P.FuncName(a.Fn), strings.Join(allowed, ",")))
 	}
